@@ -326,6 +326,103 @@ def run_sharded(exe, scripts, timeout_s, label):
     return res, hangs
 
 
+
+# --------------------------------------------------------------------------- kernel cross-check of the extracted model
+
+def _tok_gallina(t):
+    if t.startswith("#") and t[1:].isdigit():
+        return "TN %s" % t[1:]
+    if len(t) > 1 and t[0] == "z" and t[1:].isdigit():
+        n = int(t[1:])
+        return "TH [%s]" % ";".join(str((i * 7 + 3) & 255) for i in range(n))
+    if t[0] == "x" and len(t) % 2 == 1 and all(c in "0123456789abcdefABCDEF" for c in t[1:]):
+        b = bytes.fromhex(t[1:])
+        return "TH [%s]" % ";".join(str(x) for x in b)
+    return "TW [%s]" % ";".join(str(x) for x in t.encode("latin-1"))
+
+
+def _lines_gallina(lines):
+    return "[" + ";\n  ".join("[" + "; ".join(_tok_gallina(t) for t in l.split(" ") if t != "") + "]" for l in lines) + "]"
+
+
+KERNEL_PREAMBLE = """From Hoot Require Import Base Script.
+Open Scope N_scope.
+Definition tok_eqb (a b : tok) : bool :=
+  match a, b with
+  | TW x, TW y => beq_bytes x y
+  | TN x, TN y => x =? y
+  | TH x, TH y => beq_bytes x y
+  | _, _ => false
+  end.
+Fixpoint list_eqb {A} (eq : A -> A -> bool) (l1 l2 : list A) : bool :=
+  match l1, l2 with
+  | [], [] => true
+  | a :: t1, b :: t2 => eq a b && list_eqb eq t1 t2
+  | _, _ => false
+  end.
+"""
+
+
+def kernel_sample(pid, scripts, model_obs, rng, count):
+    """Evaluates run_script INSIDE Coq (vm_compute, kernel reduction) on a seeded sample of the scripts and compares with
+    what the extracted OCaml model printed: keeps extraction, ocamlopt and the driver out of the trusted base for the
+    sample. Returns (number checked, list of script indices that differ or failed)."""
+    cand = [i for i, sc in enumerate(scripts)
+            if model_obs[i] is not None and "panic" not in model_obs[i]
+            and sum(len(o) for o in sc["ops"]) + sum(len(o) for o in model_obs[i]) < 12000]
+    if not cand:
+        return 0, []
+    pick = cand if len(cand) <= count else rng.sample(cand, count)
+    k = max(1, min(NPROC, len(pick) // 6 + 1))
+    os.makedirs(WORK, exist_ok=True)
+    procs = []
+    for si in range(k):
+        idxs = pick[si::k]
+        if not idxs:
+            continue
+        name = "Cases_%s_%d_%d" % (pid, os.getpid(), si)
+        path = os.path.join(WORK, name + ".v")
+        with open(path, "w") as f:
+            f.write(KERNEL_PREAMBLE)
+            for i in idxs:
+                f.write("Eval vm_compute in (list_eqb (list_eqb tok_eqb) (run_script\n %s)\n %s).\n" % (
+                    _lines_gallina(scripts[i]["ops"]), _lines_gallina(model_obs[i])))
+        p = subprocess.Popen(["timeout", "900", "coqc", "-q", "-noglob", "-Q", THEORIES, "Hoot", "-Q", WORK, "HootWork", path],
+                             stdout=subprocess.PIPE, stderr=subprocess.STDOUT, text=True)
+        procs.append((p, idxs, path))
+    bad = []
+    checked = 0
+    for p, idxs, path in procs:
+        out, _ = p.communicate()
+        verdicts = re.findall(r"=\s*(true|false)\s*:\s*bool", out)
+        if p.returncode != 0 or len(verdicts) != len(idxs):
+            log("kernel sample: coqc failed on %s:\n%s" % (path, out[-1500:]))
+            bad.extend(idxs)
+        else:
+            checked += len(idxs)
+            bad.extend(i for i, v in zip(idxs, verdicts) if v != "true")
+        for ext in (".v", ".vo", ".vok", ".vos", ".glob"):
+            fp = path[:-2] + ext
+            if os.path.exists(fp):
+                os.remove(fp)
+        aux = os.path.join(os.path.dirname(path), "." + os.path.basename(path)[:-2] + ".aux")
+        if os.path.exists(aux):
+            os.remove(aux)
+    return checked, bad
+
+
+def run_coqchk(pid):
+    """Independent re-check of the compiled theorems of one property (and everything they depend on) with coqchk;
+    returns (ok, text of its context summary)."""
+    with Lock("coq"):
+        p = run(["timeout", "1500", "coqchk", "-silent", "-o", "-Q", "theories", "Hoot", "Hoot.props.%s" % pid], cwd=COQ,
+                check=False, timeout=1600)
+    m = re.search(r"CONTEXT SUMMARY.*", p.stdout, flags=re.S)
+    summary = m.group(0) if m else p.stdout[-2000:]
+    ok = p.returncode == 0 and re.search(r"\* Axioms: <none>", summary) is not None \
+        and "type-in-type: <none>" in summary and "unsafe (co)fixpoints: <none>" in summary and "positivity is assumed: <none>" in summary
+    return ok, re.sub(r"\s+", " ", summary)[:1200]
+
 # --------------------------------------------------------------------------- comparison helpers
 
 def collapse_err(line):
@@ -438,6 +535,29 @@ def check(pid, tier, seed):
     model_obs, mhangs = run_sharded(model, scripts, timeout_s, "model")
     t_model = time.time() - t_run
     log("ran %d scripts: implementation %.1fs, model %.1fs" % (len(scripts), t_impl, t_model))
+    # kernel cross-check of extraction + driver on a seeded sample (DESIGN.md 3.2)
+    kernel_checked, kernel_bad = (0, [])
+    if model_ok:
+        t_run = time.time()
+        kernel_checked, kernel_bad = kernel_sample(pid, scripts, model_obs, random.Random(seed + 1), 300 if tier == "thorough" else 24)
+        log("kernel sample: %d scripts evaluated inside Coq, %d differ from the extracted model (%.1fs)" % (
+            kernel_checked, len(kernel_bad), time.time() - t_run))
+    # thorough: release-profile build of the harness must observe the same (debug builds trap on overflow, release wraps)
+    release_diff = []
+    coqchk_ok, coqchk_summary = (None, "")
+    if tier == "thorough":
+        try:
+            impl_rel = build_harness(release=True)
+            rel_obs, rel_hangs = run_sharded(impl_rel, scripts, timeout_s, "implrel")
+            release_diff = [i for i in range(len(scripts)) if rel_obs[i] != impl_obs[i]]
+            hangs = hangs + rel_hangs
+        except Infra as e:
+            log("release harness: %s" % e)
+        if props["ok"]:
+            coqchk_ok, coqchk_summary = run_coqchk(pid)
+            if not coqchk_ok:
+                proof_ok = False
+                log("coqchk does not accept props/%s.vo: %s" % (pid, coqchk_summary))
 
     project = getattr(mod, "project", default_project)
     project_all = getattr(mod, "project_all", None)
@@ -493,6 +613,10 @@ def check(pid, tier, seed):
                 break
     for h in hangs:
         oracle_failures.append((h, "implementation did not finish within the time limit (hang)", None))
+    for i in release_diff[:5]:
+        oracle_failures.append((i, "debug and release builds of the crate observe differently on this script (arithmetic overflow?)", None))
+    for i in kernel_bad[:5]:
+        disagreements.append((i, -1, "<extracted model>", "<differs from evaluation inside Coq (vm_compute)>"))
 
     corr_ok = not disagreements and not mhangs
     violations = 0
@@ -567,6 +691,9 @@ def check(pid, tier, seed):
             "known_findings_seen": known_seen, "facts": facts, "proof_ok": proof_ok, "correspondence_ok": corr_ok,
             "forbidden_constructs": forbidden,
             "generator_stats": mod.stats() if hasattr(mod, "stats") else {},
+            "kernel_sample": {"evaluated_in_coq": kernel_checked, "differ_from_extracted_model": len(kernel_bad)},
+            "release_profile_differences": len(release_diff) if tier == "thorough" else None,
+            "coqchk": {"ok": coqchk_ok, "summary": coqchk_summary} if tier == "thorough" else None,
         },
         "assumptions": getattr(mod, "ASSUMPTIONS", []),
         "wall_s": round(time.time() - t0, 2),
